@@ -358,6 +358,13 @@ fn rand_checks<R: GenRep>(n: usize, seed: u64, ctx: &mut Ctx) {
     }
 }
 
+pub fn rand_checks_pub(n: usize, seed: u64, ctx: &mut Ctx) {
+    rand_checks::<AL>(n, seed, ctx);
+    rand_checks::<AM>(n, seed, ctx);
+    rand_checks::<AX>(n, seed, ctx);
+    rand_checks::<EL>(n, seed, ctx);
+}
+
 fn c15_space<R: GenRep>(maxn: usize, nseeds: u64, pars: usize) -> Space {
     let total = maxn as u64 * nseeds * pars as u64;
     let sp = Space::new("c15.gen", vec![R::ID, maxn as u64, nseeds, pars as u64], total, format!("random_tournament / random_recursive_tree / erdos_renyi (p ∈ {PS:?}) in {} for every order 1..={maxn} × {nseeds} seeds (0..63, 2^32, u64::MAX-1, u64::MAX, ...) × worker threads 1..={pars}, each called twice", R::NAME), move |idx, ctx| {
@@ -427,6 +434,64 @@ fn c15_f64_space(nseeds: u64, draws: usize) -> Space {
     })
 }
 
+// Seeds whose FIRST 64-bit draw is a chosen boundary value. The harness inverts the
+// published seeding (SplitMix64 state expansion, xoshiro256** output function) to find
+// them; whether the inversion still matches the code is measured at run time (tag
+// `boundary_first_draws_realised`), so a changed seeding only turns these into ordinary
+// seeds and never into an alarm.
+fn inv_odd(a: u64) -> u64 {
+    let mut x = a;
+    for _ in 0..6 {
+        x = x.wrapping_mul(2u64.wrapping_sub(a.wrapping_mul(x)));
+    }
+    x
+}
+fn unxorshift(y: u64, k: u32) -> u64 {
+    let mut x = y;
+    for _ in 0..(64 / k + 1) {
+        x = y ^ (x >> k);
+    }
+    x
+}
+pub fn seed_for_first_draw(o: u64) -> u64 {
+    const G: u64 = 0x9E37_79B9_7F4A_7C15;
+    // first output = rotl(state[1] * 5, 7) * 9
+    let s1 = o.wrapping_mul(inv_odd(9)).rotate_right(7).wrapping_mul(inv_odd(5));
+    // state[1] = second SplitMix64 output of the seed
+    let z = unxorshift(s1, 31).wrapping_mul(inv_odd(0x94D0_49BB_1331_11EB));
+    let z = unxorshift(z, 27).wrapping_mul(inv_odd(0xBF58_476D_1CE4_E5B9));
+    unxorshift(z, 30).wrapping_sub(G.wrapping_mul(2))
+}
+
+fn c15_boundary_space() -> Space {
+    const MANT: [u64; 6] = [(1 << 52) - 1, 0, 1, 1 << 51, (1 << 52) - 2, (1 << 51) - 1];
+    const HIGH: [u64; 5] = [0, 0xFFF, 0x800, 0x001, 0x555];
+    Space::new("c15.boundary_draws", vec![], (MANT.len() * HIGH.len()) as u64, "seeds whose first 64-bit draw has a boundary mantissa (all ones, zero, 1, 2^51, ...) under five settings of the 12 high bits: next_f64 in [0,1), erdos_renyi p = 1 complete and p = 0 empty at orders 2..4 in four representations, generators valid", move |idx, ctx| {
+        let target = (HIGH[(idx as usize) / MANT.len()] << 52) | MANT[(idx as usize) % MANT.len()];
+        let seed = seed_for_first_draw(target);
+        ctx.exec();
+        if Xoshiro256StarStar::new(seed).next() == Some(target) {
+            ctx.tag("boundary_first_draws_realised");
+            ctx.nontrivial();
+        }
+        let mut a = Xoshiro256StarStar::new(seed);
+        for k in 0..4 {
+            ctx.exec();
+            let x = a.next_f64();
+            if !(0.0..1.0).contains(&x) {
+                ctx.fail(format!("next_f64() draw {k} for seed {seed} = {x} is outside [0, 1) (first 64-bit draw {target:#x})"), json!({"seed": seed}));
+            }
+        }
+        for n in 2..=4 {
+            rand_checks::<AL>(n, seed, ctx);
+            rand_checks::<AM>(n, seed, ctx);
+            rand_checks::<AX>(n, seed, ctx);
+            rand_checks::<EL>(n, seed, ctx);
+        }
+        ctx.sample(|| json!({"seed": seed, "first_draw": format!("{target:#018x}")}));
+    })
+}
+
 pub fn c15(tier: &str, seed: u64) -> Check {
     let thorough = tier == "thorough";
     let mut spaces = Vec::new();
@@ -445,11 +510,13 @@ pub fn c15(tier: &str, seed: u64) -> Check {
         spaces.push(c15_f64_space(1 << 16, 4));
     }
     spaces.push(c15_invalid_space());
+    spaces.push(c15_boundary_space());
+    spaces.push(crate::props::large::c15_big(thorough));
     let report = super::report(
         "C15",
         tier,
         seed,
-        "exhaustive over the enumerated parameter grid: every order 1..=8 (20) × 70 (1024) seeds incl. 0..63, 2^32, u64::MAX-1, u64::MAX × p ∈ {0, 2^-40, 0.25, 0.5, 0.5+2^-40, 0.75, 1} × four representations, the threaded AdjacencyMap variants for every worker count 1..=8 (..17 at order ≤ 18); each call made twice. Oracle: tournament / recursive-tree / simple-digraph-on-0..n definitions, p=0 ⇒ no arcs, p=1 ⇒ all arcs, equal arguments ⇒ equal results, p outside [0,1] (5 values incl. NaN, ±∞) and order 0 panic; next_f64 ∈ [0,1) for seeds 0..2^16 (2^22), their complements and a multiplicative scramble, first 4 (8) draws. Interleavings of the AdjacencyMap generators' workers are explored by the schedule engine (coverage.schedules). Non-trivial: order > workers > 1 (threaded), order ≥ 3 otherwise.",
+        "exhaustive over the enumerated parameter grid: every order 1..=8 (20) × 70 (1024) seeds incl. 0..63, 2^32, u64::MAX-1, u64::MAX × p ∈ {0, 2^-40, 0.25, 0.5, 0.5+2^-40, 0.75, 1} × four representations, the threaded AdjacencyMap variants for every worker count 1..=8 (..17 at order ≤ 18); each call made twice. Oracle: tournament / recursive-tree / simple-digraph-on-0..n definitions, p=0 ⇒ no arcs, p=1 ⇒ all arcs, equal arguments ⇒ equal results, p outside [0,1] (5 values incl. NaN, ±∞) and order 0 panic; next_f64 ∈ [0,1) for seeds 0..2^16 (2^22), their complements and a multiplicative scramble, first 4 (8) draws; plus 30 seeds computed (by inverting the seeding) so that the FIRST 64-bit draw has a boundary mantissa — all ones, zero, 1, 2^51 — under five high-bit patterns (realisation measured at run time). Interleavings of the AdjacencyMap generators' workers are explored by the schedule engine (coverage.schedules). Non-trivial: order > workers > 1 (threaded), order ≥ 3 otherwise.",
         &["'all u64 seeds' is decided only on the enumerated seeds; next_f64 ∈ [0,1) for every seed follows from the 52-bit mantissa construction, an arithmetic argument outside this technique", "outputs for 0 < p < 1 are not compared across representations or worker counts (allowed to differ)"],
         json!({"max_order": if thorough {20} else {8}, "seeds": if thorough {1024} else {70}}),
     );
